@@ -99,6 +99,11 @@ add("C14", "exploration",
     "Trusted: non-deterministic functions (RAND, NOW, CALL) excluded; poisoning relies on the verif Discard hook.",
     "property-based testing (rapid) with metamorphic repetition, a poisoned-pool differential and a syntax-tree snapshot", "DESIGN.md §3 C14")
 
+add("C02", "exploration",
+    "Generated tables (cells over delimiters, quotes, line breaks, tabs, colons, edge blanks, non-ASCII, NULL; >4 KiB and >64 KiB variants) x six formats x encodings (UTF-8, BOM, UTF-16 BE/LE, SJIS) x line breaks x enclose-all/without-header/strip-ending-line-break/json-escape: EncodeView output must either be refused with nothing written (never for a table the harness's per-format predicate calls spellable) or load back through the real loader with the same shape, header and texts; the same bytes are read by independent readers (RFC 4180 state machine + encoding/csv, encoding/json with duplicate detection, own LTSV/fixed-width cutters); CLI sub-checks update harness-written files of a generated dialect and verify on the bytes that delimiter, encoding/BOM, every line break and header convention survive, and that refused writes leave --out absent and stdout empty.",
+    "Trusted: props/c02/codec.go (the harness's own writers/readers and spellability predicates). Seven known findings live in the go-text dependency (module cache, outside /repo) and are routed around.",
+    "property-based testing + fuzzing (rapid, go test -fuzz) with a write/read round-trip oracle and independent readers", "DESIGN.md §3 C02")
+
 NOT_YET = {}
 
 def main():
